@@ -649,6 +649,13 @@ impl CommandHub {
             }
         };
 
+        // a scattered request id is answered at most once: the first terminal
+        // response (OK or failure) retires it, so a duplicate cannot be counted
+        // in place of another worker's answer
+        let retired_id = match ResponseStatus::try_from(response.status) {
+            Ok(ResponseStatus::Ok) | Ok(ResponseStatus::Failure) => Some(response.id.clone()),
+            _ => None,
+        };
         let client = &mut task
             .job
             .client_token()
@@ -656,6 +663,9 @@ impl CommandHub {
         task.job
             .get_gatherer()
             .on_message(&mut self.server, client, worker_id, response);
+        if let Some(id) = retired_id {
+            self.server.in_flight.remove(&id);
+        }
     }
 
     fn handle_finishing_task(&mut self, task_id: TaskId, task: TaskContainer, timed_out: bool) {
